@@ -43,10 +43,10 @@ pub fn workload(tier: Tier) -> Vec<Work> {
     let mut w: Vec<Work> = Vec::new();
     let plain = |c: PCase| Work { space: c.space, prog: c.prog, stack: c.stack, layout: Layout::PLAIN };
     w.extend(e1_single_statements(tier == Tier::Thorough).into_iter().map(plain));
-    for n in 1..=tier.pick(4, 6) {
+    for n in 1..=tier.pick(4, 7) {
         w.extend(e2_single_reference(n).into_iter().map(plain));
     }
-    for n in 2..=tier.pick(3, 5) {
+    for n in 2..=tier.pick(3, 6) {
         w.extend(e2_two_references(n).into_iter().map(plain));
     }
     // E3: far labels at the in-range extremes
@@ -90,7 +90,7 @@ pub fn workload(tier: Tier) -> Vec<Work> {
     // escaped backslash, each documented escape, an unknown escape, and the letters that follow a
     // backslash in escapes (so that `\\n` = backslash + 'n' is distinguished from `\n`)
     let pieces = ["\\\\", "\\n", "\\t", "\\r", "\\\"", "\\q", "n", "t", "r", "a", " "];
-    for len in 1..=tier.pick(3, 4) {
+    for len in 1..=tier.pick(3, 5) {
         for idx in 0..crate::util::pow(pieces.len(), len) {
             let raw: String = crate::util::seq(idx, pieces.len(), len).iter().map(|i| pieces[*i]).collect();
             let mut prog = Program::default();
